@@ -549,6 +549,57 @@ func bodyText(fd *ast.FuncDecl) string {
 }
 
 // drainGuard: under which condition on maxWait the timeout case of waitForControlPlaneDrain can fire
+// readyDeadline: where waitReloadReadyOrSignal evaluates its timer expression relative to its loop
+func readyDeadline(fd *ast.FuncDecl) string {
+	var loop *ast.ForStmt
+	for _, st := range fd.Body.List {
+		if f, ok := st.(*ast.ForStmt); ok {
+			if loop != nil {
+				return "RNone"
+			}
+			loop = f
+		}
+	}
+	if loop == nil {
+		return "RNone"
+	}
+	hasTimeout := false
+	ast.Inspect(loop, func(x ast.Node) bool {
+		if cc, ok := x.(*ast.CommClause); ok {
+			for _, st := range cc.Body {
+				if rs, ok := st.(*ast.ReturnStmt); ok && len(rs.Results) >= 1 && exprStr(rs.Results[0]) == "reloadReadyWaitTimeout" {
+					hasTimeout = true
+				}
+			}
+		}
+		return true
+	})
+	if !hasTimeout {
+		return "RNone"
+	}
+	before, inside := 0, 0
+	ast.Inspect(fd.Body, func(x ast.Node) bool {
+		if c, ok := x.(*ast.CallExpr); ok {
+			switch exprStr(c.Fun) {
+			case "time.NewTimer", "time.After", "time.AfterFunc", "time.Tick", "time.NewTicker":
+				if c.Pos() >= loop.Pos() && c.End() <= loop.End() {
+					inside++
+				} else if c.Pos() < loop.Pos() {
+					before++
+				}
+			}
+		}
+		return true
+	})
+	switch {
+	case inside > 0:
+		return "RRearmed"
+	case before == 1:
+		return "RFixed"
+	}
+	return "RNone"
+}
+
 func drainGuard(fd *ast.FuncDecl) string {
 	// the select clause that returns controlPlaneDrainTimeout
 	recv := ""
@@ -756,6 +807,10 @@ func main() {
 	}
 	res["bodies"] = bodies
 	res["timer_guard"] = drainGuard(fns["waitForControlPlaneDrain"])
+	if fns["waitReloadReadyOrSignal"] == nil {
+		die("function waitReloadReadyOrSignal not found in cmd/run.go")
+	}
+	res["ready_deadline"] = readyDeadline(fns["waitReloadReadyOrSignal"])
 	// constants
 	consts := map[string]string{}
 	grab := func(file string, names ...string) {
@@ -1043,6 +1098,27 @@ func lineariseDefers(body *ast.BlockStmt, where string) []ast.Stmt {
 	return out
 }
 
+// clock seam: inside the named functions every timer constructor of package time goes through a
+// counting wrapper of the harness (same behaviour, one more observable: how often a timeout is armed)
+var seamFuncs = map[string]bool{"waitReloadReadyOrSignal": true}
+var seams = 0
+
+func clockSeam(fd *ast.FuncDecl) {
+	ast.Inspect(fd.Body, func(x ast.Node) bool {
+		if c, ok := x.(*ast.CallExpr); ok {
+			switch types.ExprString(c.Fun) {
+			case "time.NewTimer":
+				c.Fun = ast.NewIdent("verifC20NewTimer")
+				seams++
+			case "time.After":
+				c.Fun = ast.NewIdent("verifC20After")
+				seams++
+			}
+		}
+		return true
+	})
+}
+
 func instrument(path, hook string, want []string, outPath string) {
 	f, err := parser.ParseFile(fset, path, nil, parser.ParseComments)
 	if err != nil {
@@ -1053,6 +1129,9 @@ func instrument(path, hook string, want []string, outPath string) {
 		fd, ok := d.(*ast.FuncDecl)
 		if !ok || fd.Body == nil {
 			continue
+		}
+		if seamFuncs[fd.Name.Name] && fd.Recv == nil {
+			clockSeam(fd)
 		}
 		for _, w := range want {
 			if fd.Name.Name == w {
@@ -1083,6 +1162,9 @@ func main() {
 		[]string{"BeginReloadProxyFailureSuppression", "EndReloadProxyFailureSuppression"}, filepath.Join(out, "sticky_cache_instrumented.go"))
 	instrument(filepath.Join(repo, "cmd", "reload_manager.go"), "verifC20Yield",
 		[]string{"startControlPlaneRetirement"}, filepath.Join(out, "reload_manager_instrumented.go"))
+	if seams == 0 {
+		die("waitReloadReadyOrSignal: no time.NewTimer/time.After call to put the clock seam on")
+	}
 	_ = json.NewEncoder(os.Stdout).Encode(points)
 }
 '''
@@ -1425,6 +1507,8 @@ def gen_text(d):
     d["budget_total_ns"] = eval_duration(c["reloadTotalSwitchBudget"], {})
     if not isinstance(d.get("ret_tail"), list) or any(x not in ("TCancel", "TCloseGen", "TCleanup", "TCloseDone") for x in d["ret_tail"]):
         raise AnchorMoved("startControlPlaneRetirement: tail of the retirement goroutine not understood: %r" % d.get("ret_tail"))
+    if d.get("ready_deadline") not in ("RFixed", "RRearmed", "RNone"):
+        raise AnchorMoved("waitReloadReadyOrSignal: timer shape not understood: %r" % d.get("ready_deadline"))
     if d.get("timer_guard") not in ("GAlways", "GNonNeg", "GPositive", "GNever"):
         raise AnchorMoved("waitForControlPlaneDrain: timer shape not understood: %r" % d.get("timer_guard"))
     # cmd/reload.go: the client sends its signal only when the progress file says Done or Error
@@ -1454,6 +1538,8 @@ def gen_text(d):
          "Definition gen_budget_total : Z := %s%%Z.  (* reloadTotalSwitchBudget, ns *)" % hex(d["budget_total_ns"]),
          "(* cmd/reload_manager.go startControlPlaneRetirement: the goroutine after the drain, deferred calls in executed order *)",
          "Definition gen_ret_tail : list tail_step := [%s]." % "; ".join(d["ret_tail"]),
+         "(* cmd/run.go waitReloadReadyOrSignal: timer created before the `for` (RFixed) or timer/After evaluated inside it (RRearmed) *)",
+         "Definition gen_ready_deadline : ready_deadline := %s." % d["ready_deadline"],
          "Definition gen_tables : tables := Build_tables gen_worker_paths gen_main_paths gen_cap gen_quiesce gen_timer_guard gen_budget_total gen_ret_tail.", ""]
     return "\n".join(t)
 
@@ -1664,6 +1750,13 @@ def gen_drain(rng, d, n_ops, boundary=False):
     return {"cap": d["cap"], "ops": ops, "legal": False, "drained": False, "wpaths": [], "mpaths": [], "kind": "drain"}
 
 
+def gen_ready_wait(rng, d, boundary=False):
+    """the real waitReloadReadyOrSignal fed k ignored signals (SIGUSR1/SIGUSR2/SIGHUP) one after the other
+    and then readiness; observable: how many timers it arms (clock seam of the build-time overlay)"""
+    ks = [0, 1, 2, 5, 16] if boundary else [rng.choice([0, 1, 2, 3, 7, 12]) for _ in range(rng.choice([1, 2, 3]))]
+    return {"cap": d["cap"], "ops": [{"op": "SW", "d": k} for k in ks], "legal": False, "drained": False, "wpaths": [], "mpaths": [], "kind": "readywait-arms"}
+
+
 def gen_legal(rng, d, n_ops, ready_wait_signals=0.0, force_worker=None, force_main=None, race=0.0):
     w = Walk(rng, d, ready_wait_signals, force_worker, force_main, race)
     w.emit({"op": "Q", "b": rng.random() < 0.4})
@@ -1721,6 +1814,9 @@ def gen_adversarial(rng, d, n_ops):
 # ------------------------------------------------------------------------------------------------
 # evaluation
 # ------------------------------------------------------------------------------------------------
+READY_MODE = ["RFixed"]    # where the source arms the readiness timer (set from the translator's output)
+
+
 def _optn(ms):
     return "None" if ms is None or ms < 0 else "(Some %d%%N)" % (ms * MS)
 
@@ -1735,6 +1831,8 @@ def op_coq(op):
         return "ORetire %d 0%%N" % op.get("d", 0)
     if k == "SD":
         return "OSessionsEnd %d" % op.get("d", 0)
+    if k == "SW":
+        return "OReadyWaitArms %s %d" % (READY_MODE[0], op.get("d", 0))
     if k == "WD":
         return "OWaitDrain (%d)%%Z %d %s %s %d%%N" % (op["maxw_ns"], op["sessions"], _optn(op["idle_ms"]), _optn(op["cancel_ms"]), op["watch_ms"] * MS)
     if k == "RB":
@@ -1877,6 +1975,9 @@ def describe(case, err):
         return "a goroutine the protocol relies on never finished: " + note
     if code == 9:
         return "the implementation panicked: " + note
+    if op and op["op"] == "SW":
+        return ("waitReloadReadyOrSignal armed a new timeout for every ignored signal (%d signals): the readiness deadline is not fixed before the loop, "
+                "so signals arriving faster than the timeout keep the hand-off waiting for ever (no ReloadError answer, no rollback, no release)" % op.get("d", 0))
     if op and op["op"] == "WD":
         return ("waitForControlPlaneDrain(maxWait=%d ns) with %d session(s) that never drain and no cancellation was still waiting after %d ms: "
                 "the drain budget does not bound the retirement" % (op["maxw_ns"], op["sessions"], op["watch_ms"]))
@@ -1931,6 +2032,7 @@ def main(argv):
         if d is None or "translator" in tie_problems:
             out.violation("tie", tie_problems, "path translator no longer understands cmd/run.go; no failing input found", no_failing_input=True)
             return out.finish()
+        READY_MODE[0] = d["ready_deadline"]
         cov["paths"] = {"worker": len(d["worker"]), "main": len(d["main"]), "channel_capacity": d["cap"], "quiesce_ns": d["quiesce_ns"]}
 
         # ---- 2. proofs ----
@@ -1986,6 +2088,8 @@ def main(argv):
             kp = [k for k, p in enumerate(d["worker"]) if "ClearPending" in p["effs"]]
             cases.append(gen_legal(rng, d, rng.choice([6, 12, 25]), 0.0, force_worker=kp[0] if (i < 3 and kp) else None,
                                    race=1.0 if i < 3 else 0.5))
+        for i in range(3 if quick else 40):
+            cases.append(gen_ready_wait(rng, d, boundary=(i == 0)))
         for i in range(n_drain):
             cases.append(gen_drain(rng, d, 17 if i == 0 else rng.choice([4, 8]), boundary=(i == 0)))
         for i in range(n_adv):
@@ -2029,7 +2133,7 @@ def main(argv):
         # ---- 3b. a verdict that depends on real time is believed only if it persists ----
         # (all waits in the harness are for events with a long deadline; the deadline is multiplied by 4
         # and by 16 before "this never happened" is reported)
-        TIME_OPS = ("D", "WD", "RB", "O", "SD", "RF", "R")
+        TIME_OPS = ("D", "WD", "RB", "O", "SD", "RF", "R", "SW")
 
         def time_dependent(i):
             step, code, _ = all_err[i][0]
